@@ -363,7 +363,7 @@ pub fn c11_spaces(thorough: bool) -> Vec<Spec> {
     v.push(Spec::So3 { bounds: None, frac: None });
     let diag = crate::catalog::quat_axis_angle([1.0, 1.0, 0.3], 100.0);
     for c in [id, rx, diag] {
-        let radii: Vec<f64> = if thorough { vec![0.0, 1e-10, 1e-3, 0.5, 1.0, 1.2, PI / 2.0, 2.0, 2.5, PI, 4.0] } else { vec![0.0, 1e-3, 0.5, 1.2, PI / 2.0, 2.5, PI] };
+        let radii: Vec<f64> = if thorough { vec![0.0, 1e-10, 1e-3, 0.5, 1.0, 1.2, PI / 2.0, 2.0, 2.5, PI, 4.0] } else { vec![0.0, 1e-6, 1e-3, 0.5, 1.2, PI / 2.0, 2.5, PI] };
         for r in radii {
             v.push(Spec::So3 { bounds: Some((c, r)), frac: None });
         }
